@@ -127,16 +127,18 @@ Definition no_stuck_emit (s : state) : Prop :=
 
 Lemma returns_partial_orig : forall s,
   reachable cfg_orig s -> quiescentb cfg_orig s = true -> closing s = true ->
-  no_stuck_emit s -> blocks s Cl = false -> blocks s Sv = false -> main s = MReturned.
+  no_stuck_emit s -> is_stalled (cli s) = false -> is_stalled (srv s) = false -> main s = MReturned.
 Proof.
   intros s Hr Hq Hcl Hns Hb1 Hb2.
   destruct (dinv_reachable_any _ _ Hr) as (Hc & Hv).
+  pose proof (noerr_reachable_any cfg_orig s eq_refl Hr) as Hne. unfold noerr in Hne.
   pose proof (Hns Cl) as N1. pose proof (Hns Sv) as N2. clear Hns.
-  destruct_state s. simpl in Hcl. subst clo_.
+  destruct_state s. simpl in Hcl, Hb1, Hb2. subst clo_.
   all_q Hq. clear Hq Hr.
-  unfold dinv, dir_inv, blocks in *. red_q. split_hyps.
   destruct m_; [exfalso; discriminate Q | exfalso | reflexivity].
-  red_q.
+  destruct cl_; try discriminate Hb1; destruct sv_; try discriminate Hb2; clear Hb1 Hb2;
+  destruct wrc; try discriminate Hne; destruct wrs; try discriminate Hne; clear Hne;
+  unfold dinv, dir_inv, blocks in *; red_q; split_hyps;
   destruct rdc, rds; red_q; qd;
     try (specialize (N1 _ _ _ (or_introl eq_refl)));
     try (specialize (N1 _ _ _ (or_intror eq_refl)));
